@@ -1,6 +1,9 @@
 ------------------------------- MODULE NStep_MC -------------------------------
 EXTENDS NStep
-P(a, b, c, g) == [n |-> a, E |-> b, N |-> c, gexp |-> g]
-MCParams == { P(1,1,2,1), P(2,1,3,1), P(3,1,2,1), P(3,1,4,2), P(2,2,3,1), P(2,2,4,1), P(3,2,4,0), P(3,2,5,1) }
-MCParamsBig == MCParams \cup { P(4,2,6,1), P(2,3,4,1) }     \* P(3,3,7,1) does not finish within an hour
+P(a, b, c, g) == [n |-> a, E |-> b, N |-> c, gexp |-> g, gnum |-> 1, gden |-> Pow2(g)]
+\* a discount that is not 1/2^k: gamma = num/den (gamma = 0: every return is the first reward alone)
+PG(a, b, c, num, den) == [n |-> a, E |-> b, N |-> c, gexp |-> 0, gnum |-> num, gden |-> den]
+MCParams == { P(1,1,2,1), P(2,1,3,1), P(3,1,2,1), P(3,1,4,2), P(2,2,3,1), P(2,2,4,1), P(3,2,4,0), P(3,2,5,1),
+              PG(3,1,4,0,1), PG(3,1,3,9,10), P(2,2,2,1) }
+MCParamsBig == MCParams \cup { P(4,2,6,1), P(2,3,4,1), PG(2,2,3,99,100) }     \* P(3,3,7,1) does not finish within an hour
 ================================================================================
